@@ -13,6 +13,7 @@ import tempfile
 
 from lib import luagen as L
 from lib import reflex
+from lib import core
 from lib.core import ShardResult, h64
 from props import c08
 
@@ -58,7 +59,7 @@ def collapse(c):
 
 def fmt(src, width, chunks=None):
     lua = lua_mod()
-    obj = lua.Lua.from_lines(chunks or [src], version=8)
+    obj = lua.Lua.from_lines(chunks or [src], version=core.lua_version(src))
     out = b''.join(obj.to_lines(writer_cls=lua.LuaFormatterWriter, writer_args={'indentwidth': width}))
     return obj, out
 
